@@ -179,6 +179,40 @@ pub fn random_scenario(id : String, seed : u64, pr : &Profile) -> Vec<Value>
 /*  Crash explorer: a random prefix history, then one invocation recorded with a snapshot after every
     mutating System call (and one torn prefix per write); from every snapshot a recovery build is run.
     Each (snapshot, recovery) pair is its own trace scenario: load pre-state, start, crash, build ... ret. */
+/*  runs one invocation of `scn` with a snapshot after every mutating System call (and one torn prefix per write);
+    every snapshot becomes its own trace scenario: load pre-state, start, crash (snapshot state), recovery build */
+pub fn crash_last(scn : &mut Scn, id : &str, is_build : bool, goal : &str, sched : Sched, max_snaps : usize, meta : Value) -> (Vec<Value>, usize)
+{
+    let pre_state = scn.state();
+    let env = scn.sys.fs.lock().unwrap().env.clone();
+    let ord = scn.ord.clone();
+    let (_o, snaps) = scn.invoke(is_build, goal, sched, true);
+    let mut out : Vec<Value> = vec![];
+    let mut n = 0;
+    let step = if snaps.len() > max_snaps { (snaps.len() + max_snaps - 1) / max_snaps } else { 1 };
+    for (k, snap) in snaps.iter().enumerate()
+    {
+        if k % step != 0 && k + 1 != snaps.len() { continue; }
+        n += 1;
+        let mut m = meta.clone(); m["crashpoint"] = json!(snap.label);
+        let mut sub = Scn::new(&format!("{}.k{}", id, k), ord.clone(), false, false, m);
+        sub.sys = scn.sys.from_snap(snap);
+        sub.names.rids = scn.names.rids.clone(); sub.names.shs = scn.names.shs.clone();
+        sub.rules = scn.rules.clone();
+        sub.sys.set_rules(&sub.rules);
+        sub.out.push(json!({"a" : "rules", "rules" : crate::model::rules_json(&sub.rules)}));
+        sub.out.push(json!({"a" : "env", "v" : env}));
+        sub.out.push(json!({"a" : "load", "state" : pre_state}));
+        sub.out.push(json!({"a" : if is_build { "build" } else { "clean" }, "g" : goal}));
+        let st = sub.state();
+        sub.out.push(json!({"a" : "crash", "k" : k, "at" : snap.label, "inexec" : snap.inexec,
+            "taken" : snap.takes.iter().map(|(p, n)| json!([p, n])).collect::<Vec<_>>(), "state" : st}));
+        sub.invoke(true, "", Sched::Serial, false);
+        out.extend(sub.out);
+    }
+    (out, n)
+}
+
 pub fn crash_scenarios(id : String, seed : u64, pr : &Profile, max_snaps : usize) -> (Vec<Value>, usize)
 {
     let mut rng = Rng::new(seed);
@@ -203,31 +237,8 @@ pub fn crash_scenarios(id : String, seed : u64, pr : &Profile, max_snaps : usize
     let is_build = rng.chance(3, 4);
     let goal = if rng.chance(2, 3) { "".to_string() } else { targets[rng.below(targets.len())].clone() };
     let serial = rng.chance(1, 2);
-    let pre_state = scn.state();
-    let pre_sys = scn.sys.fork(false);
     let s = sched_for(&mut rng, serial);
-    let (_o, snaps) = scn.invoke(is_build, &goal, s, true);
-    let mut out : Vec<Value> = vec![];
-    let mut n = 0;
-    let step = if snaps.len() > max_snaps { (snaps.len() + max_snaps - 1) / max_snaps } else { 1 };
-    for (k, snap) in snaps.iter().enumerate()
-    {
-        if k % step != 0 && k + 1 != snaps.len() { continue; }
-        n += 1;
-        let mut sub = Scn::new(&format!("{}.k{}", id, k), ord.clone(), false, false, json!({"seed" : seed, "crashpoint" : snap.label}));
-        sub.sys = scn.sys.from_snap(snap);
-        sub.names.rids = scn.names.rids.clone(); sub.names.shs = scn.names.shs.clone();
-        sub.rules = scn.rules.clone();
-        sub.sys.set_rules(&sub.rules);
-        sub.out.push(json!({"a" : "rules", "rules" : crate::model::rules_json(&sub.rules)}));
-        sub.out.push(json!({"a" : "env", "v" : pre_sys.fs.lock().unwrap().env.clone()}));
-        sub.out.push(json!({"a" : "load", "state" : pre_state}));
-        sub.out.push(json!({"a" : if is_build { "build" } else { "clean" }, "g" : goal}));
-        let st = sub.state();
-        sub.out.push(json!({"a" : "crash", "k" : k, "at" : snap.label, "inexec" : snap.inexec, "state" : st}));
-        sub.invoke(true, "", Sched::Serial, false);
-        out.extend(sub.out);
-    }
+    let (out, n) = crash_last(&mut scn, &id, is_build, &goal, s, max_snaps, json!({"seed" : seed}));
     let _ = DIR;
     (out, n)
 }
